@@ -191,3 +191,16 @@ func fmtErr(err error) string {
 	}
 	return fmt.Sprintf("error(%v)", err)
 }
+
+// probeTab returns the table entries a state comparison probes: the whole table, or in the
+// large-size runs a derived sample of 48 entries (different for every op).
+func probeTab[T any](tab []T, cfg Cfg, opID int) []T {
+	if cfg.Mode != "big" || len(tab) <= 48 {
+		return tab
+	}
+	out := make([]T, 48)
+	for i := range out {
+		out[i] = tab[derive(opID, 900+i, len(tab))]
+	}
+	return out
+}
